@@ -37,7 +37,7 @@ COMPONENTS = {"real": ["amaranth.hdl elaboration (Fragment.prepare, _create_miss
                        "scratch directory for extraction"]}
 EXPECTED_PROBES = ("hashseed", "restart", "clockjump", "implicit_domains_ge2", "reset_after_timeline_fired",
                    "reset_inside_critical", "double_reset", "name_clash", "anonymous_submodule")
-CHUNK = 2
+CHUNK = 1
 STEP_KEYS = ("recipes", "steps")
 
 
